@@ -40,6 +40,7 @@ def run(F, rep, tier):
     rep.floor("DISCHARGE", "shape add_constraint sites", n, 6)
     loop_flag(F, rep)
     start_rules(F, rep)
+    c03.binder_typed(F, rep)
 
 
 def blob_arm(F, rep):
